@@ -17,12 +17,12 @@ import (
 
 // CheckSpec is /verif/harness/<ID>/check.json.
 type CheckSpec struct {
-	PropertyID  string   `json:"property_id"`
-	Title       string   `json:"title"`
+	PropertyID  string            `json:"property_id"`
+	Title       string            `json:"title"`
 	Bounds      map[string]string `json:"bounds"` // tier -> text
-	Assumptions []string `json:"assumptions"`
-	NotCovered  []string `json:"not_covered"`
-	Files       []string `json:"files"` // harness files relative to the check dir
+	Assumptions []string          `json:"assumptions"`
+	NotCovered  []string          `json:"not_covered"`
+	Files       []string          `json:"files"`    // harness files relative to the check dir
 	Deadline    map[string]string `json:"deadline"` // tier -> duration
 	MaxPaths    map[string]int    `json:"max_paths"`
 	Validate    map[string]int    `json:"validate"` // tier -> number of paths validated natively per harness
@@ -77,20 +77,21 @@ func readKnownFindings(root string) []knownFinding {
 }
 
 type harnessEvidence struct {
-	Harness       string         `json:"harness"`
-	Paths         int            `json:"paths"`
-	Completed     int            `json:"completed_paths"`
-	Outcomes      map[string]int `json:"path_outcomes"`
-	Decisions     int            `json:"decisions"`
-	Covers        map[string]int `json:"cover_labels"`
-	Asserts       map[string]int `json:"assertions_checked"`
-	Assumes       map[string]int `json:"assumptions_applied,omitempty"`
-	Panics        map[string]int `json:"panic_paths,omitempty"`
-	Unsupported   map[string]int `json:"unsupported_hits,omitempty"`
-	Validated     int            `json:"paths_validated_natively"`
-	WallS         float64        `json:"wall_s"`
-	MaxPathSteps  int64          `json:"max_path_steps"`
-	GoStmts       int            `json:"go_statements_seen,omitempty"`
+	Harness      string         `json:"harness"`
+	Paths        int            `json:"paths"`
+	Completed    int            `json:"completed_paths"`
+	Outcomes     map[string]int `json:"path_outcomes"`
+	Decisions    int            `json:"decisions"`
+	Covers       map[string]int `json:"cover_labels"`
+	Asserts      map[string]int `json:"assertions_checked"`
+	Assumes      map[string]int `json:"assumptions_applied,omitempty"`
+	Panics       map[string]int `json:"panic_paths,omitempty"`
+	Unsupported  map[string]int `json:"unsupported_hits,omitempty"`
+	Validated    int            `json:"paths_validated_natively"`
+	WallS        float64        `json:"wall_s"`
+	MaxPathSteps int64          `json:"max_path_steps"`
+	GoStmts      int            `json:"go_statements_seen,omitempty"`
+	Notes        map[string]int `json:"notes_failed_paths,omitempty"`
 }
 
 func cmdCheck(args []string) int {
@@ -169,7 +170,7 @@ func cmdCheck(args []string) int {
 	var samples []interface{}
 	tot := struct {
 		states, transitions, validated, feasQ, assertQ, assertSat, assertUnsat, assertUnknown, solverErrors, solverUnknown int
-		solverTime                                                                                                     time.Duration
+		solverTime                                                                                                         time.Duration
 	}{}
 	writeEvidence := func(status string) {
 		ev := map[string]interface{}{
@@ -197,11 +198,11 @@ func cmdCheck(args []string) int {
 					"assertion_unsat": tot.assertUnsat, "assertion_unknown": tot.assertUnknown,
 					"solver_unknown": tot.solverUnknown, "solver_error_lines": tot.solverErrors,
 				},
-				"solver_time_s": tot.solverTime.Seconds(),
-				"solvers":       []string{"z3 4.8.12 (/usr/bin/z3 -in)"},
-				"inconclusive":  inconclusive,
+				"solver_time_s":  tot.solverTime.Seconds(),
+				"solvers":        []string{"z3 4.8.12 (/usr/bin/z3 -in)"},
+				"inconclusive":   inconclusive,
 				"known_findings": knownLines,
-				"explanation":   "states = symbolic paths explored to completion; transitions = decision points resolved by the solver along them; traces_validated_against_impl = sampled paths whose solver model was run natively (go test, real libraries) and whose observations matched the symbolic run",
+				"explanation":    "states = symbolic paths explored to completion; transitions = decision points resolved by the solver along them; traces_validated_against_impl = sampled paths whose solver model was run natively (go test, real libraries) and whose observations matched the symbolic run",
 			},
 		}
 		b, _ := json.MarshalIndent(ev, "", " ")
@@ -247,7 +248,10 @@ func cmdCheck(args []string) int {
 		}
 		he := harnessEvidence{Harness: h.Func, Paths: rep.Paths, Completed: rep.Completed, Outcomes: rep.Outcomes,
 			Decisions: rep.Decisions, Covers: rep.Covers, Asserts: rep.Asserts, Assumes: rep.Assumes, Panics: rep.Panics,
-			Unsupported: rep.Unsupported, MaxPathSteps: rep.MaxPathSteps, GoStmts: rep.GoStmts}
+			Unsupported: rep.Unsupported, MaxPathSteps: rep.MaxPathSteps, GoStmts: rep.GoStmts, Notes: rep.Notes}
+		for n, k := range rep.Notes {
+			fmt.Printf("NOTE property=%s %s/%s can fail on %d paths (stronger than the property; not a violation)\n", spec.PropertyID, h.Func, n, k)
+		}
 		for _, f := range rep.Funcs {
 			funcs[f] = true
 		}
